@@ -12,7 +12,8 @@ def mkWorld (j : Json) : World :=
   let defd := arr! (fld j "defd")
   let rawOk := arr! (fld j "rawOk")
   { nf := nat! (fld j "nf"), isRef := boolAt isRef, defd := boolAt defd, rawOk := boolAt rawOk,
-    isLocal := bool! (fld j "isLocal"), isFn := bool! (fld j "isFn") }
+    isLocal := bool! (fld j "isLocal"), isFn := bool! (fld j "isFn"),
+    schemaBase := !(bool! (fld j "objectBase")) }
 
 def mkCall (j : Json) : Call := (arr! j).map fun u => match arr! u with
   | [f, b] => ⟨nat! f, bool! b⟩ | _ => ⟨0, false⟩
@@ -40,12 +41,17 @@ def handleFwd (j : Json) : Json :=
   let tids := List.range n
   let outs := tids.map fun k => Json.arr ((s.th k).outs.map (Json.str ∘ outName)).toArray
   let pcs := tids.map fun k => Json.str (s.th k).pc.label
+  let vt (v : ValTrace) := Json.arr (v.map fun (f, c) =>
+      Json.arr #[Json.num (JsonNumber.fromNat f), Json.str (match c with | .byType => "byType" | .asIs => "asIs")]).toArray
+  let vouts := tids.map fun k => Json.arr ((s.th k).vouts.map vt).toArray
+  let specV := progs.map fun cs => Json.arr (cs.map (vt ∘ aloneVals W)).toArray
   let spec := progs.map fun cs => Json.arr (cs.map (Json.str ∘ outName ∘ alone W)).toArray
   Json.mkObj [
     ("follows", Json.bool bad.isNone),
     ("at", match bad with | some (k, _) => Json.num k | none => Json.null),
     ("model_label", match bad with | some (_, l) => Json.str l | none => Json.null),
     ("outs", Json.arr outs.toArray), ("pcs", Json.arr pcs.toArray), ("alone", Json.arr spec.toArray),
+    ("vouts", Json.arr vouts.toArray), ("aloneVals", Json.arr specV.toArray),
     ("pending", Json.arr (s.g.pending.map (fun (i : Nat) => Json.num (JsonNumber.fromNat i))).toArray)]
 
 /-! registry cases -/
